@@ -951,7 +951,12 @@ func RunValidate(s z.ZogSchema, destPtr reflect.Value, opts ...z.ExecOption) (o 
 }
 
 // deepCopy returns an independent copy of v (slices, pointers, structs; maps are not used in destinations).
+// Sharing inside v is preserved: two pointers to one object are copied to two pointers to one new object.
 func deepCopy(v reflect.Value) reflect.Value {
+	return deepCopyMemo(v, map[uintptr]reflect.Value{})
+}
+
+func deepCopyMemo(v reflect.Value, memo map[uintptr]reflect.Value) reflect.Value {
 	out := reflect.New(v.Type()).Elem()
 	switch v.Kind() {
 	case reflect.Slice:
@@ -960,15 +965,20 @@ func deepCopy(v reflect.Value) reflect.Value {
 		}
 		s := reflect.MakeSlice(v.Type(), v.Len(), v.Len())
 		for i := 0; i < v.Len(); i++ {
-			s.Index(i).Set(deepCopy(v.Index(i)))
+			s.Index(i).Set(deepCopyMemo(v.Index(i), memo))
 		}
 		out.Set(s)
 	case reflect.Pointer:
 		if v.IsNil() {
 			return out
 		}
+		if p, ok := memo[v.Pointer()]; ok {
+			out.Set(p)
+			return out
+		}
 		p := reflect.New(v.Type().Elem())
-		p.Elem().Set(deepCopy(v.Elem()))
+		memo[v.Pointer()] = p
+		p.Elem().Set(deepCopyMemo(v.Elem(), memo))
 		out.Set(p)
 	case reflect.Struct:
 		if v.Type() == primType(KTime) {
@@ -976,7 +986,7 @@ func deepCopy(v reflect.Value) reflect.Value {
 			return out
 		}
 		for i := 0; i < v.NumField(); i++ {
-			out.Field(i).Set(deepCopy(v.Field(i)))
+			out.Field(i).Set(deepCopyMemo(v.Field(i), memo))
 		}
 	default:
 		out.Set(v)
